@@ -159,6 +159,23 @@ def check(c):
         in1 = next(iter(d1.inputs.values())) if d1.inputs else None
         if out0 is None or in1 is None or not numpy.array_equal(numpy.asarray(out0), numpy.asarray(in1)):
             return dict(**{"class": "debug-chain"}, what="recorded output of step 0 is not the recorded input of step 1")
+    # every output method of the final step records (a classifier may have predict, predict_proba AND decision_function)
+    if hasattr(pipe, "steps"):
+        last_model = pipe.steps[-1][1]
+        for meth in ("predict_proba", "decision_function", "predict", "transform"):
+            if not (hasattr(last_model, meth) and hasattr(pipe, meth)):
+                continue
+            try:
+                out = getattr(pipe, meth)(data)
+            except (AttributeError, NotImplementedError):
+                continue
+            d_ = last_model._debug
+            if meth not in d_.outputs or not numpy.array_equal(numpy.asarray(d_.outputs[meth]), numpy.asarray(out)):
+                return dict(**{"class": "debug-chain"}, what="%s of the pipeline is not recorded by its last step" % meth)
+            if len(pipe.steps) >= 2 and hasattr(pipe.steps[-2][1], "_debug"):
+                prev = pipe.steps[-2][1]._debug.outputs.get("transform")
+                if prev is None or not numpy.array_equal(numpy.asarray(prev), numpy.asarray(d_.inputs[meth])):
+                    return dict(**{"class": "debug-chain"}, what="input recorded for %s of the last step is not the recorded output of the step before" % meth)
     return None
 
 
